@@ -316,6 +316,7 @@ func execC29(p *C29Plan, cfg simrt.Config, root string) *c29exec {
 				n.up = false
 				ex.crashes++
 				inflight = 0
+				n.logs.processDied()
 				simrt.Revive(n.sn)
 			} else {
 				ex.restarts++
@@ -857,11 +858,26 @@ func runC29(planAny any, cfg simrt.Config) *simkit.Outcome {
 		return keys[i].e < keys[j].e
 	})
 	lossPermitted := ex.crashes > 0 || ex.failedDst > 0 || !ex.closedOK
+	// Windows of executions that were in flight when the process died: such an
+	// execution may have been cut anywhere, also between handing its output
+	// rows to storage and recording itself (two stores, no common commit). It
+	// is neither a successful nor a failed execution, the statement says
+	// nothing about what it leaves behind, and it did not advance the window
+	// (that is still judged above). Only output for exactly such a window is
+	// excused; it is counted, not hidden.
+	cutWin := map[wkey]bool{}
+	for _, tr := range ex.traces {
+		if tr.cutByCrash {
+			cutWin[wkey{tr.winS, tr.winE}] = true
+		}
+	}
 	for _, k := range keys {
 		g, w := got[k], expected[k]
 		win := fmt.Sprintf("[%s, %s)", time.Unix(k.s, 0).UTC().Format(time.RFC3339), time.Unix(k.e, 0).UTC().Format(time.RFC3339))
 		_, recorded := expected[k]
 		switch {
+		case g > w && ex.crashes > 0 && cutWin[k]:
+			out.Stats["probe.output_left_by_execution_cut_by_crash"]++
 		case g > 0 && !recorded && failedWin[k]:
 			out.Violate("C29.failed-execution-wrote-output", "%d output rows exist for window %s whose execution is recorded as failed", g, win)
 		case g > 0 && !recorded:
